@@ -43,6 +43,7 @@ def plan(tier, seed):
         for ng in (2, 3):
             for extra in (1, 2, 3, 4):
                 shards.append(("index_low", li, ng, tier, extra))
+    shards.append(("callers",))
     k = seed % len(shards)
     return shards[k:] + shards[:k]
 
@@ -65,6 +66,10 @@ def npk_within(ubi, gv, tol):
 
 
 def run_shard(desc):
+    if desc[0] == "callers":
+        # score_and_refine (behind scorethem) is declared threadsafe: two indexers in two python threads are inside it at once
+        from vt.props import c06
+        return c06._run_callers(("callers",))
     only_low, extra_shift = False, 0
     if desc[0] == "index_low":
         _, li, ng, tier, extra_shift = desc
@@ -94,12 +99,15 @@ def run_shard(desc):
     # alternatives of a real grain, not reported) in both cosine_tol modes, and a partial grain holding EXACTLY minpks peaks
     combos += [(0.01, ct, 0.3, 0.005, "ideal") for ct in (0.002, -0.002)] + [(0.01, 0.002, -1.0, 0.005, "partial")]
     combos += [(0.02, ct, 0.08, 0.005, "ideal") for ct in (0.002, -0.002)]
+    # every grain indexes exactly minpks + 1 peaks (all of its reflections): each must still be reported, whichever grain owns the
+    # last g-vector of the list and whether the list has an odd or an even length (one extra spurious vector makes the other parity)
+    combos += [(0.01, 0.002, -2.0, 0.005, "ideal"), (0.01, 0.002, -2.0, 0.005, "ideal+1")]
     if only_low:
         combos = [(0.02, ct, mf, 0.005, "ideal") for ct in (0.002, -0.002) for mf in (0.08, 0.2, 0.3)]
     for hkl_tol, ctol, mfrac, ds_tol, kind in combos:
         if ctol < 0 and ng > 3:
             continue        # all-candidates mode is quadratic; kept to the small grain sets
-        minpks = int(mfrac * nref) if mfrac > 0 else int(((np.arange(nref) * 7 + 3) % 10 < 3).sum())
+        minpks = int(mfrac * nref) if mfrac > 0 else (int(((np.arange(nref) * 7 + 3) % 10 < 3).sum()) if mfrac == -1.0 else nref - 1)
         gvs = [g.copy() for g in gv_grain]
         n_expected = ng
         if kind == "offsets":
@@ -112,6 +120,9 @@ def run_shard(desc):
             gvs[-1] = gvs[-1][keep]
             n_expected = ng - 1
         allgv = np.concatenate(gvs)
+        if kind == "ideal+1":
+            allgv = np.concatenate([np.array([[0.0137, -0.0291, 0.0411]]), allgv])      # one vector that belongs to nothing
+            kind = "ideal"
         if kind == "spurious":
             nsp = max(6, len(allgv) // 5)
             dirs = fib_dirs(nsp, phase=0.3 * li)
@@ -303,6 +314,9 @@ def run_shard(desc):
 
 
 def replay(case):
+    if case.get("kind") == "callers":
+        from vt.props import c06
+        return c06.replay(case)
     os.environ["VERIF_SEED"] = str(case.get("seed", 0))
     if case.get("orientation_set"):
         r = run_shard(("index_low", case["lattice"], case["ngrains"], "thorough", case["orientation_set"]))
